@@ -14,6 +14,7 @@ package table
 
 import (
 	"encoding/hex"
+	"encoding/json"
 	"fmt"
 	"log/slog"
 	"math/big"
@@ -1483,6 +1484,7 @@ func TestVerifC10(t *testing.T) {
 		for k := 0; k < 2; k++ {
 			c10EditScenario(t, o, g)
 		}
+		c10MgmtScenario(t, o, g)
 		{
 			kind := g.r.intn(3)
 			pool := []int{len(c10Comms), 5, len(c10Larges)}[kind]
@@ -2409,4 +2411,460 @@ func c10EditScenario(t *testing.T, o *vOut, g *c10Gen) {
 		c10CheckReadback(o, rp, cfg2, p)
 	}
 	o.stat("edit_scenarios", 1)
+}
+
+// ---------- management requests on a configured policy: refused requests change nothing ----------
+//
+// A random program is loaded and assigned; then a sequence of management requests is issued on the
+// live RoutingPolicy — partial AddStatement / DeleteStatement with conditions and actions in every
+// order (some present, some absent), AddPolicy / DeletePolicy, DeleteDefinedSet / AddDefinedSet,
+// Set / Add / DeletePolicyAssignment with unknown or duplicated names in the middle of the list.
+//   * every REFUSED request: the read-back of every object and every verdict / condition vector is
+//     compared with the state before the request   (failed-edit-changed-policy:<object>:<op>);
+//   * whether a request is refused is predicted from the descriptors (edit-outcome-unexpected:…);
+//   * every ACCEPTED statement / assignment edit updates the descriptors; the Lean model, given the
+//     edited program, predicts the live policy's answers (correspondence), and the read-back must be
+//     the edited configuration.
+
+var c10ActType = []ActionType{ACTION_COMMUNITY, ACTION_EXT_COMMUNITY, ACTION_LARGE_COMMUNITY, ACTION_MED, ACTION_LOCAL_PREF,
+	ACTION_AS_PATH_PREPEND, ACTION_NEXTHOP, ACTION_ORIGIN}
+
+func c10FullReadback(rp *RoutingPolicy) string {
+	var b strings.Builder
+	js := func(v any) string { x, _ := json.Marshal(v); return string(x) }
+	b.WriteString("policies " + js(rp.GetPolicy("")) + "\n")
+	sts := rp.GetStatement("")
+	sort.Slice(sts, func(i, j int) bool { return sts[i].Name < sts[j].Name })
+	b.WriteString("statements " + js(sts) + "\n")
+	for _, typ := range []DefinedType{DEFINED_TYPE_PREFIX, DEFINED_TYPE_NEIGHBOR, DEFINED_TYPE_AS_PATH, DEFINED_TYPE_COMMUNITY, DEFINED_TYPE_EXT_COMMUNITY, DEFINED_TYPE_LARGE_COMMUNITY} {
+		ds, err := rp.GetDefinedSet(typ, "")
+		if err == nil {
+			// prefix lists come out of a tree: order them
+			for i := range ds.PrefixSets {
+				l := ds.PrefixSets[i].PrefixList
+				sort.Slice(l, func(a, c int) bool {
+					return l[a].IpPrefix.String()+l[a].MasklengthRange < l[c].IpPrefix.String()+l[c].MasklengthRange
+				})
+			}
+			fmt.Fprintf(&b, "sets %d %s\n", typ, js(ds))
+		}
+	}
+	for _, id := range append(append([]string{}, c10PeerIDs...), "192.0.2.99") {
+		for _, dir := range []PolicyDirection{POLICY_DIRECTION_IMPORT, POLICY_DIRECTION_EXPORT} {
+			rt, pols, _ := rp.GetPolicyAssignment(id, dir)
+			fmt.Fprintf(&b, "assign %s %s %d", id, dir, rt)
+			for _, x := range pols {
+				b.WriteString(" " + x.Name)
+			}
+			b.WriteString("\n")
+		}
+	}
+	return b.String()
+}
+
+func c10MgmtScenario(t *testing.T, o *vOut, g *c10Gen) {
+	r := g.r
+	p := g.newProg()
+	rp, _ := c10Load(t, o, p)
+	var routes []*c10Route
+	for j := 0; j < 5; j++ {
+		routes = append(routes, g.newRoute(j))
+	}
+	x := &c10Opts{id: 0, isNil: true}
+	var stmts []*c10Stmt
+	for _, pol := range p.pols {
+		stmts = append(stmts, pol.stmts...)
+	}
+	if len(stmts) == 0 {
+		return
+	}
+	polName := func(pol *c10Pol) string { return fmt.Sprintf("pol%d", pol.id) }
+	// everything observable: condition vectors and verdicts; with ask=true also sent to the model
+	behaviour := func(ask bool) string {
+		var b strings.Builder
+		for _, rt := range routes {
+			stored := rt.path()
+			for _, st := range stmts {
+				real := rp.statementMap[fmt.Sprintf("st%d", st.id)]
+				v := "c"
+				if real != nil {
+					for _, c := range real.Conditions {
+						v += " " + func() (s string) {
+							defer func() {
+								if e := recover(); e != nil {
+									s = "panic"
+								}
+							}()
+							return c10B(c.Evaluate(stored, nil))
+						}()
+					}
+				}
+				if ask && len(st.conds) > 0 {
+					o.ask(v, "sev %d %d 0", st.id, rt.id)
+				}
+				b.WriteString(v + ";")
+			}
+			for _, a := range p.assigns {
+				_, sv := c10Apply(rp, a.id, a.dir, stored, nil)
+				if ask {
+					o.ask(sv, "eval %d %d 0", a.slot, rt.id)
+				}
+				b.WriteString(sv + ";")
+			}
+		}
+		return b.String()
+	}
+	emit := func() {
+		c10Emit(o, p)
+		o.op("%s", c10OptsLine(x))
+		for _, rt := range routes {
+			o.op("%s", c10RouteLine(rt))
+		}
+	}
+	hasCond := func(st *c10Stmt, tag int) int {
+		for i, c := range st.conds {
+			if c.tag == tag {
+				return i
+			}
+		}
+		return -1
+	}
+	hasAct := func(st *c10Stmt, tag int) int {
+		for i, a := range st.acts {
+			if a.tag == tag {
+				return i
+			}
+		}
+		return -1
+	}
+	nReq := 5 + r.intn(4)
+	for q := 0; q < nReq; q++ {
+		beforeRB, beforeBeh := c10FullReadback(rp), behaviour(false)
+		var object, op, what string
+		var err error
+		expectOK := false
+		var onSuccess func()
+		panicked := ""
+		call := func(f func() error) (e error) {
+			defer func() {
+				if x := recover(); x != nil {
+					panicked = fmt.Sprint(x)
+					e = fmt.Errorf("panic: %v", x)
+				}
+			}()
+			return f()
+		}
+		switch r.intn(10) {
+		case 0, 1, 2, 3, 4: // partial statement edit
+			st := stmts[r.intn(len(stmts))]
+			object = "statement"
+			add := r.chance(40)
+			op = "delete-partial"
+			if add {
+				op = "add-partial"
+			}
+			req := &c10Stmt{id: st.id}
+			// a mix of things the statement has and has not
+			for tag := 0; tag < 15; tag++ {
+				has := hasCond(st, tag) >= 0
+				pr := 8
+				if has != add {
+					pr = 35 // removable / addable
+				}
+				if r.chance(pr) {
+					if has && !add {
+						req.conds = append(req.conds, st.conds[hasCond(st, tag)])
+					} else {
+						req.conds = append(req.conds, g.newCond(p, tag))
+					}
+				}
+			}
+			for tag := 0; tag < 8; tag++ {
+				has := hasAct(st, tag) >= 0
+				pr := 8
+				if has != add {
+					pr = 35
+				}
+				if r.chance(pr) {
+					req.acts = append(req.acts, g.newAct(tag))
+				}
+			}
+			if r.chance(15) {
+				req.route = r.pick(1, 2)
+			}
+			if len(req.conds)+len(req.acts) == 0 && req.route == 0 {
+				req.acts = append(req.acts, g.newAct(r.intn(8)))
+			}
+			// sets a request's new conditions refer to must exist in the live policy first
+			for _, c := range req.conds {
+				if c.set != nil {
+					if err2 := rp.AddDefinedSet(c10MkDefinedSet(t, c.set), true); err2 != nil {
+						t.Fatalf("C10 mgmt: %v", err2)
+					}
+				}
+			}
+			beforeRB = c10FullReadback(rp)
+			rs, e2 := NewStatement(c10StmtConfig(req))
+			if e2 != nil {
+				t.Fatalf("C10 mgmt: request statement rejected: %v", e2)
+			}
+			// NewStatement lists conditions and actions in a fixed order; a caller need not
+			if r.chance(50) {
+				pc, pa := r.perm(len(rs.Conditions)), r.perm(len(rs.ModActions))
+				cs, as := make([]Condition, len(pc)), make([]Action, len(pa))
+				rc, ra := make([]c10Cond, len(pc)), make([]c10Act, len(pa))
+				// descriptor order = NewStatement order = tag order, so permute both alike
+				for i, j := range pc {
+					cs[i], rc[i] = rs.Conditions[j], req.conds[j]
+				}
+				for i, j := range pa {
+					as[i], ra[i] = rs.ModActions[j], req.acts[j]
+				}
+				rs.Conditions, rs.ModActions, req.conds, req.acts = cs, as, rc, ra
+			}
+			expectOK = true
+			for _, c := range req.conds {
+				if (hasCond(st, c.tag) >= 0) == add {
+					expectOK = false
+				}
+			}
+			for _, a := range req.acts {
+				if (hasAct(st, a.tag) >= 0) == add {
+					expectOK = false
+				}
+			}
+			if req.route != 0 && (st.route != 0) == add {
+				expectOK = false
+			}
+			what = fmt.Sprintf("%s of [%s] on [%s]", op, c10StmtLine(req), c10StmtLine(st))
+			if add {
+				err = call(func() error { return rp.AddStatement(rs) })
+			} else {
+				err = call(func() error { return rp.DeleteStatement(rs, false) })
+			}
+			onSuccess = func() {
+				if add {
+					st.conds = append(st.conds, req.conds...)
+					st.acts = append(st.acts, req.acts...)
+					if req.route != 0 {
+						st.route = req.route
+					}
+					return
+				}
+				for _, c := range req.conds {
+					i := hasCond(st, c.tag)
+					st.conds = append(append([]c10Cond{}, st.conds[:i]...), st.conds[i+1:]...)
+				}
+				for _, a := range req.acts {
+					i := hasAct(st, a.tag)
+					st.acts = append(append([]c10Act{}, st.acts[:i]...), st.acts[i+1:]...)
+				}
+				if req.route != 0 {
+					st.route = 0
+				}
+			}
+		case 5: // statement requests that must be refused
+			object = "statement"
+			st := stmts[r.intn(len(stmts))]
+			if r.chance(50) {
+				op, what = "delete-in-use", fmt.Sprintf("st%d", st.id)
+				err = call(func() error { return rp.DeleteStatement(&Statement{Name: fmt.Sprintf("st%d", st.id)}, true) })
+			} else {
+				op, what = "delete-unknown", "nope"
+				rs, _ := NewStatement(c10StmtConfig(&c10Stmt{id: 999999, acts: []c10Act{g.newAct(3)}}))
+				err = call(func() error { return rp.DeleteStatement(rs, r.chance(50)) })
+			}
+		case 6: // policy requests that must be refused
+			object = "policy"
+			pol := p.pols[r.intn(len(p.pols))]
+			switch r.intn(4) {
+			case 0:
+				op, what = "add-refer-unknown-statement", polName(pol)
+				names := []*Statement{}
+				for _, st := range pol.stmts {
+					names = append(names, &Statement{Name: fmt.Sprintf("st%d", st.id)})
+				}
+				names = append(names, &Statement{Name: "nope"})
+				if len(stmts) > 0 {
+					names = append(names, &Statement{Name: fmt.Sprintf("st%d", stmts[0].id)})
+				}
+				err = call(func() error { return rp.AddPolicy(&Policy{Name: fmt.Sprintf("new%d", q), Statements: names}, true) })
+			case 1:
+				op, what = "add-with-existing-statement-name", polName(pol)
+				fresh, _ := NewStatement(c10StmtConfig(&c10Stmt{id: 800000 + q, acts: []c10Act{g.newAct(4)}}))
+				clash, _ := NewStatement(c10StmtConfig(&c10Stmt{id: stmts[r.intn(len(stmts))].id, acts: []c10Act{g.newAct(4)}}))
+				err = call(func() error { return rp.AddPolicy(&Policy{Name: fmt.Sprintf("new%d", q), Statements: []*Statement{fresh, clash}}, false) })
+			case 2:
+				op, what = "delete-unknown", "nope"
+				err = call(func() error { return rp.DeletePolicy(&Policy{Name: "nope"}, r.chance(50), r.chance(50), c10PeerIDs) })
+			case 3:
+				var used *c10Pol
+				for _, a := range p.assigns {
+					if len(a.pols) > 0 {
+						used = a.pols[0]
+					}
+				}
+				if used == nil {
+					continue
+				}
+				op, what = "delete-in-use", polName(used)
+				err = call(func() error { return rp.DeletePolicy(&Policy{Name: polName(used)}, true, r.chance(50), c10PeerIDs) })
+			}
+		case 7: // defined-set requests that must be refused
+			object = "defined-set"
+			if len(p.sets) == 0 {
+				continue
+			}
+			s := p.sets[r.intn(len(p.sets))]
+			inUse := false
+			for _, st := range stmts {
+				for _, c := range st.conds {
+					if c.set != nil && c.set.name() == s.name() {
+						inUse = true
+					}
+				}
+			}
+			switch r.intn(3) {
+			case 0:
+				if !inUse {
+					continue
+				}
+				op, what = "delete-in-use", s.name()
+				err = call(func() error { return rp.DeleteDefinedSet(c10MkDefinedSet(t, s), true) })
+			case 1:
+				op, what = "delete-unknown", "nope"
+				u := g.newSet(s.kind)
+				u.id = 777777
+				err = call(func() error { return rp.DeleteDefinedSet(c10MkDefinedSet(t, u), r.chance(50)) })
+			case 2:
+				if s.kind != 0 || len(s.pfx) == 0 {
+					continue
+				}
+				op, what = "append-other-family", s.name()
+				other := "2001:db8:7::/48"
+				if s.pfx[0].p.Addr().Is6() {
+					other = "10.7.0.0/16"
+				}
+				u := &c10Set{kind: 0, id: s.id, pfx: []c10Pfx{{p: netip.MustParsePrefix(other), lo: 0, hi: 128}}}
+				err = call(func() error { return rp.AddDefinedSet(c10MkDefinedSet(t, u), false) })
+			}
+		case 8, 9: // assignment edits, names known / unknown / duplicated
+			object = "assignment"
+			a := p.assigns[r.intn(len(p.assigns))]
+			var req []*c10Pol
+			var names []*oc.PolicyDefinition
+			n := r.intn(4)
+			bad := false
+			seen := map[int]bool{}
+			for i := 0; i < n; i++ {
+				switch {
+				case r.chance(12):
+					names, bad = append(names, &oc.PolicyDefinition{Name: "nope"}), true
+				default:
+					pol := p.pols[r.intn(len(p.pols))]
+					if seen[pol.id] {
+						bad = true
+					}
+					seen[pol.id] = true
+					req = append(req, pol)
+					names = append(names, &oc.PolicyDefinition{Name: polName(pol)})
+				}
+			}
+			def := []RouteType{ROUTE_TYPE_NONE, ROUTE_TYPE_ACCEPT, ROUTE_TYPE_REJECT}[r.intn(3)]
+			what = fmt.Sprintf("%s/%s %v default %d", a.id, a.dir, func() []string {
+				var l []string
+				for _, x := range names {
+					l = append(l, x.Name)
+				}
+				return l
+			}(), def)
+			setDef := func() {
+				if def == ROUTE_TYPE_ACCEPT {
+					a.dflt = 1
+				} else if def == ROUTE_TYPE_REJECT {
+					a.dflt = 2
+				}
+			}
+			switch r.intn(3) {
+			case 0:
+				op = "set"
+				err = call(func() error { return rp.SetPolicyAssignment(a.id, a.dir, names, def) })
+				expectOK = !bad
+				onSuccess = func() { a.pols = req; setDef() }
+			case 1:
+				op = "add"
+				err = call(func() error { return rp.AddPolicyAssignment(a.id, a.dir, names, def) })
+				expectOK = !bad
+				for _, cur := range a.pols {
+					if seen[cur.id] {
+						expectOK = false
+					}
+				}
+				onSuccess = func() { a.pols = append(append([]*c10Pol{}, a.pols...), req...); setDef() }
+			case 2:
+				op = "delete"
+				err = call(func() error { return rp.DeletePolicyAssignment(a.id, a.dir, names, false) })
+				expectOK = !bad
+				onSuccess = func() {
+					var kept []*c10Pol
+					for _, cur := range a.pols {
+						if !seen[cur.id] {
+							kept = append(kept, cur)
+						}
+					}
+					a.pols = kept
+				}
+			}
+		}
+		if object == "" {
+			continue
+		}
+		o.stat("mgmt_"+object+"_"+op+map[bool]string{true: "_accepted", false: "_refused"}[err == nil], 1)
+		if panicked != "" {
+			o.fail("management-request-panics:"+object+":"+op, map[string]any{"request": what, "panic": panicked})
+			return
+		}
+		if (err == nil) != expectOK {
+			o.fail("edit-outcome-unexpected:"+object+":"+op, map[string]any{"request": what, "expected_accepted": expectOK,
+				"error": fmt.Sprint(err)})
+			return
+		}
+		if err != nil {
+			// a refused request is a no-op
+			if now := c10FullReadback(rp); now != beforeRB {
+				bl, nl := strings.Split(beforeRB, "\n"), strings.Split(now, "\n")
+				d := 0
+				for d < len(bl) && d < len(nl) && bl[d] == nl[d] {
+					d++
+				}
+				o.fail("failed-edit-changed-policy:"+object+":"+op, map[string]any{"request": what, "error": err.Error(),
+					"observed": "read-back", "before": c10DiffWindow(bl[min(d, len(bl)-1)], nl[min(d, len(nl)-1)]),
+					"after": c10DiffWindow(nl[min(d, len(nl)-1)], bl[min(d, len(bl)-1)])})
+				return
+			}
+			if now := behaviour(false); now != beforeBeh {
+				o.fail("failed-edit-changed-policy:"+object+":"+op, map[string]any{"request": what, "error": err.Error(),
+					"observed": "verdicts / condition results of the generated routes differ"})
+				return
+			}
+			continue
+		}
+		// accepted: the descriptors follow, the model predicts the edited policy, the read-back is the edited configuration
+		onSuccess()
+		emit()
+		behaviour(true)
+		cfg, _ := p.config()
+		c10CheckReadback(o, rp, cfg, p)
+	}
+	o.stat("mgmt_scenarios", 1)
+}
+
+// the part of a around the first position where it differs from b
+func c10DiffWindow(a, b string) string {
+	i := 0
+	for i < len(a) && i < len(b) && a[i] == b[i] {
+		i++
+	}
+	lo, hi := max(0, i-260), min(len(a), i+260)
+	return a[lo:hi]
 }
